@@ -1,0 +1,47 @@
+// Copyright 2025 CloudWeGo Authors
+//
+// Licensed under the Apache License, Version 2.0 (the "License");
+// you may not use this file except in compliance with the License.
+// You may obtain a copy of the License at
+//
+//   http://www.apache.org/licenses/LICENSE-2.0
+//
+// Unless required by applicable law or agreed to in writing, software
+// distributed under the License is distributed on an "AS IS" BASIS,
+// WITHOUT WARRANTIES OR CONDITIONS OF ANY KIND, either express or implied.
+// See the License for the specific language governing permissions and
+// limitations under the License.
+
+//go:build verif
+
+package fastgo
+
+import "fmt"
+
+// This file only exists under the build tag "verif". It lets an external verification
+// harness see, unchanged, what bitsetCodeGen emits for a given number of added values.
+
+// VerifBitsetCode runs newBitsetCodeGen("isset", "uint8") with the values 0 .. n-1 added in
+// that order, exactly as genFastRead uses it for the required fields of a struct. It returns
+// the text of GenVar, the text of GenSetbit for every value, and the text of GenIfNotSet whose
+// callback prints "fid = <value>".
+func VerifBitsetCode(n int) (decl string, setbits []string, tests string) {
+	g := newBitsetCodeGen("isset", "uint8")
+	for i := 0; i < n; i++ {
+		g.Add(i)
+	}
+	w := newCodewriter()
+	g.GenVar(w)
+	decl = w.String()
+	for i := 0; i < n; i++ {
+		w = newCodewriter()
+		g.GenSetbit(w, i)
+		setbits = append(setbits, w.String())
+	}
+	w = newCodewriter()
+	g.GenIfNotSet(w, func(w *codewriter, v interface{}) {
+		w.f("fid = %s", fmt.Sprint(v))
+	})
+	tests = w.String()
+	return
+}
